@@ -155,3 +155,23 @@ Definition ex9_d : val := VStruct [("ID", VInt 2); ("Amt", VInt 3)].
 Definition ex9_dirty : val := VStruct [("Mapper", VPtr (VStruct [])); ("ID", VInt 9); ("Amt", VStr "old")].
 Definition ex9_v : val := VStruct [("Mapper", VPtr (VStruct [])); ("ID", VInt 1); ("Amt", VStr "ab")].
 Definition ex9_v_nil : val := VStruct [("Mapper", VNil); ("ID", VInt 1); ("Amt", VStr "ab")].
+
+(* ex10: corpus pair 14 (K_map_tag_underscore); ex11: corpus pair 15 (K_map_embedded_nonstruct) *)
+Definition ex10 : pairspec :=
+(let E : env := [((PSrc, "T"), DStruct [{| sf_name := "User_Name"; sf_emb := false; sf_ty := (TBasic BString); sf_tag := "Title" |}; {| sf_name := "Alpha"; sf_emb := false; sf_ty := (TBasic BString); sf_tag := "Nick_name" |}; {| sf_name := "Beta"; sf_emb := false; sf_ty := (TBasic BInt); sf_tag := "zip_code" |}; {| sf_name := "ID"; sf_emb := false; sf_ty := (TBasic BInt); sf_tag := "" |}]);
+  ((PDst, "T"), DStruct [{| sf_name := "Title"; sf_emb := false; sf_ty := (TBasic BString); sf_tag := "" |}; {| sf_name := "Nick_name"; sf_emb := false; sf_ty := (TBasic BString); sf_tag := "" |}; {| sf_name := "ZipCode"; sf_emb := false; sf_ty := (TBasic BInt); sf_tag := "" |}; {| sf_name := "ID"; sf_emb := false; sf_ty := (TBasic BInt); sf_tag := "" |}]);
+  (((POth "common"), "Level"), DBasic BInt);
+  (((POth "common"), "Code"), DBasic BString);
+  (((POth "common"), "Ratio"), DBasic BFloat64);
+  (((POth "common"), "Flag"), DBasic BBool);
+  (((POth "common"), "Tiny"), DBasic BInt8);
+  (((POth "common"), "Money"), DStruct [{| sf_name := "Units"; sf_emb := false; sf_ty := (TBasic BInt64); sf_tag := "" |}; {| sf_name := "Cur"; sf_emb := false; sf_ty := (TBasic BString); sf_tag := "" |}])] in let FN : list mfunc := [] in {| ps_env := E; ps_fuel := 10; ps_jobs := [{| j_env := E; j_fuel := 10; j_src := "T"; j_dst := "T"; j_funcs := []; j_ic := false; j_src_acc := []; j_dst_acc := []; j_src_ctor := []; j_dst_ctor := []; j_src_shootnew := false; j_manual_to := None; j_manual_from := None; j_mapper_hop := None |}]; ps_funcs := []; ps_manual_to := []; ps_manual_from := []; ps_way := WBoth |}).
+Definition ex11 : pairspec :=
+(let E : env := [((PSrc, "T"), DStruct [{| sf_name := "Level"; sf_emb := true; sf_ty := (TNamed (POth "common") "Level"); sf_tag := "" |}; {| sf_name := "ID"; sf_emb := false; sf_ty := (TBasic BInt); sf_tag := "" |}]);
+  ((PDst, "T"), DStruct [{| sf_name := "Level"; sf_emb := false; sf_ty := (TBasic BInt16); sf_tag := "" |}; {| sf_name := "ID"; sf_emb := false; sf_ty := (TBasic BInt); sf_tag := "" |}]);
+  (((POth "common"), "Level"), DBasic BInt);
+  (((POth "common"), "Code"), DBasic BString);
+  (((POth "common"), "Ratio"), DBasic BFloat64);
+  (((POth "common"), "Flag"), DBasic BBool);
+  (((POth "common"), "Tiny"), DBasic BInt8);
+  (((POth "common"), "Money"), DStruct [{| sf_name := "Units"; sf_emb := false; sf_ty := (TBasic BInt64); sf_tag := "" |}; {| sf_name := "Cur"; sf_emb := false; sf_ty := (TBasic BString); sf_tag := "" |}])] in let FN : list mfunc := [] in {| ps_env := E; ps_fuel := 10; ps_jobs := [{| j_env := E; j_fuel := 10; j_src := "T"; j_dst := "T"; j_funcs := []; j_ic := false; j_src_acc := []; j_dst_acc := []; j_src_ctor := []; j_dst_ctor := []; j_src_shootnew := false; j_manual_to := None; j_manual_from := None; j_mapper_hop := None |}]; ps_funcs := []; ps_manual_to := []; ps_manual_from := []; ps_way := WBoth |}).
